@@ -88,7 +88,40 @@ impl Oracle for C04 {
     }
 }
 
+const WEAR_LINE: &str = "line:slot-wear:";
+const WEAR_SIGNATURE: &str = "I6-is_removed-becomes-false|one-arena-slot-reused-more-than-32767-times";
+
+/// One line of states: a text node is created and removed over and over (the arena hands out the same slot each time).
+/// The handle of the very first node, and of one node out of every 4096, must stay removed for ever. Returns the first
+/// cycle after which one of them is live again.
+fn slot_wear_line(cycles: u32) -> Option<(u32, String)> {
+    let mut xot = xot::Xot::new();
+    let mut watched: Vec<(u32, xot::Node)> = vec![];
+    for i in 0..cycles {
+        let n = xot.new_text("t");
+        for (born, w) in &watched {
+            if !xot.is_removed(*w) {
+                return Some((i, format!("the node created in cycle {} and removed at once is live again in cycle {} (is_removed == false; it compares equal to the node just created: {})", born, i, *w == n)));
+            }
+        }
+        if xot.remove(n).is_err() {
+            return Some((i, "remove of a fresh text node failed".into()));
+        }
+        if i % 4096 == 0 {
+            watched.push((i, n));
+        }
+    }
+    None
+}
+
 pub fn eval(case: &Case) -> Vec<Fail> {
+    if let Some(n) = case.start.name.strip_prefix(WEAR_LINE) {
+        let cycles: u32 = n.parse().unwrap_or(0);
+        return match slot_wear_line(cycles) {
+            Some((_, d)) => vec![Fail::new(WEAR_SIGNATURE, d)],
+            None => vec![],
+        };
+    }
     replay_history(&C04, case)
 }
 
@@ -128,6 +161,16 @@ pub fn run(tier: Tier) -> i32 {
     r.stats = r.stats.merge(r2.stats);
     r.states += r2.states;
     r.transitions += r2.transitions;
+    // the line of 70 000 create / remove cycles on one arena slot (beyond any 16-bit generation counter)
+    {
+        let cycles = 70_000u32;
+        r.stats.evals += cycles as u64;
+        r.stats.add("slot_wear_cycles", cycles as u64);
+        if let Some((at, d)) = slot_wear_line(cycles) {
+            let case = HistoryCase { start: Start { name: format!("{}{}", WEAR_LINE, at + 1), forest: vec![], adjacent_text: false, consolidation: true, parse: vec![] }, ops: vec![] };
+            r.stats.fail(&case, Fail::new(WEAR_SIGNATURE, d));
+        }
+    }
     if let Err(e) = require_nonzero(&r.stats, &["calls_ok", "calls_refused", "transitions"]) {
         eprintln!("MACHINERY: {}", e);
         return 2;
